@@ -216,6 +216,46 @@ def run(ctx):
         #                 on the value (empty, repeated, ...) decides whether a line is written
         def writes(p_, blks):
             return [e_ for e_ in p_.events if e_.kind == "call" and e_.path.endswith("write_fmt") and e_.bb in blks]
+        def element_lines(e_):
+            """e_ is  a.iter().try_for_each(|line| writeln!(f, "{}={}", key, line))  for the list `a` of the current entry: one line per element,
+            front to back, unconditionally, each `key=element` (try_for_each stops at the first failed write and hands the error back)"""
+            if not (ev_is(e_, "Iterator::try_for_each") and len(e_.args) == 2):
+                return False
+            it = strip_refs(e_.args[0])
+            while isinstance(it, tuple) and it and it[0] == "loc" and len(it) > 2:
+                it = strip_refs(it[2])
+            clo = strip_refs(e_.args[1])
+            if not (is_call(it, "[T]>::iter") and isinstance(clo, tuple) and clo[:2] == ("agg", "closure")):
+                return False
+            src = strip_refs(call_args(it)[0])
+            nx = [s_ for s_ in subterms(src) if is_call(s_, *NEXTS)]
+            if not nx:
+                return False
+            item = ("field", ("downcast", nx[0], "Some"), 0, "0")
+            # the list is the A payload of the current item's value
+            if not (isinstance(src, tuple) and src[0] == "field" and isinstance(src[1], tuple) and src[1][0] == "downcast" and src[1][2] == "A"
+                    and mentions(src[1][1], lambda s_: isinstance(s_, tuple) and len(s_) > 2 and s_[0] == "field" and s_[2] == 1 and s_[1] == item)):
+                return False
+            cb = ctx.body(clo[2])
+            rp = ret_paths(ctx.paths(clo[2]) or [])
+            if cb is None or len(rp) != 1 or [fmt_template(x) for x in fmt_sites_in(fx, cb)] != [sp["line_template"]]:
+                return False
+            q = rp[0]
+            ws = [x for x in q.events if x.kind == "call" and x.path.endswith("write_fmt")]
+            if len(ws) != 1 or strip_refs(q.end[1]) != strip_refs(ws[0].term) or any(c.term[0] != "discr" for c in q.conds()):
+                return False
+            arr = [x for x in subterms(ws[0].args[1]) if isinstance(x, tuple) and x[0] == "agg" and x[1] == "array"]
+            ops = arr[0][4] if arr else ()
+            if not (len(ops) == 2 and all(is_call(o, "::new_display") for o in ops)):
+                return False
+            k0 = deval(call_args(ops[0])[0])
+            if not (isinstance(k0, tuple) and len(k0) > 2 and k0[0] == "field" and deval(k0[1]) == ("param", 1) and isinstance(k0[2], int) and k0[2] < len(clo[4])):
+                return False
+            cap = clo[4][k0[2]]
+            key_ok = mentions(cap, lambda s_: isinstance(s_, tuple) and len(s_) > 2 and s_[0] == "field" and s_[2] == 0 and s_[1] == item) and \
+                not mentions(cap, lambda s_: isinstance(s_, tuple) and len(s_) > 2 and s_[0] == "field" and s_[2] == 1 and s_[1] == item)
+            return key_ok and deval(call_args(ops[1])[0]) == ("param", 2)
+        tfe_seen = []
         outer = [h for h in body.loops if is_outer(loop_driver(body, paths, h) or "")]
         inner = [h for h in body.loops if "slice::Iter" in (loop_driver(body, paths, h) or "") and h not in outer]
         bad_iter = []
@@ -227,7 +267,10 @@ def run(ctx):
                     continue
                 own = [e_ for e_ in writes(p_, blks) if e_.bb not in nested]
                 through_inner = any(b_ in nested for b_ in p_.blocks)
-                if len(own) != 1 and not (h in outer and through_inner and len(own) == 0):
+                tfe = [e_ for e_ in p_.events if ev_is(e_, "Iterator::try_for_each") and e_.bb in blks and e_.bb not in nested]
+                if h in outer and len(own) == 0 and not through_inner and len(tfe) == 1 and element_lines(tfe[0]):
+                    tfe_seen.append(tfe[0].bb)
+                elif (len(own) != 1 or tfe) and not (h in outer and through_inner and len(own) == 0 and not tfe):
                     bad_iter.append((h, len(own)))
                 # conditions inside this iteration other than discriminant tests (which kind, Some/None of next, Ok/Err of the write)
                 extra = [c for c in p_.conds() if c.bb in blks and c.term[0] != "discr"]
@@ -238,7 +281,7 @@ def run(ctx):
                   % (bad_iter[0][1] if bad_iter else "?", bad_iter[:2]), fn_span(body))
         # A arm iterates the vector front to back
         a_loops = [h for h in body.loops if "slice::Iter" in (loop_driver(body, paths, h) or "") and h not in outer]
-        ctx.check(len(a_loops) >= 1, "D3-A-ORDER", DISPLAY_SUM, "list-iteration", "multi-line values are printed by a forward slice iteration",
+        ctx.check(len(a_loops) >= 1 or bool(tfe_seen), "D3-A-ORDER", DISPLAY_SUM, "list-iteration", "multi-line values are printed by a forward slice iteration",
                   "no forward slice iteration found for multi-line values")
         # (the key sort of the entries vector is what puts the entries in order; it does not touch a value's own elements)
         revs = [t for bb_, t in body.calls() if (t["func"]["path"].endswith("::rev") or "sort" in t["func"]["path"].split("::")[-1]) and not (sv is not None and sv["sorted"] and bb_ in sv["sort_bbs"])]
